@@ -9,6 +9,32 @@ MODS = {
                      "call and inside every closure; non-trivial = history contains a failed get, a leak, a panic or a key-returning "
                      "failure; distinct = distinct scenario text"),
 }
+COMMON_RULE = ("random API histories (1-3 threads, 4-14 calls, API-call-atomic) over a random universe of single locks, "
+               "poisonable wrappers and collections of every kind / container / nesting depth <= 2 sharing leaves, with "
+               "random holds of other threads present from the start; ")
+MODS.update({
+    "C03": dict(thms=["C03_guard_drop_releases_all", "C03_unlock_step", "C03_scoped_restores", "C03_no_self_wait"],
+                rule=COMMON_RULE + "vocabulary: every acquisition flavour, unlock / drop / forget, panics; observation = hold table after "
+                     "every call + blocked requests; non-trivial = at least three successful calls incl. a release; distinct = scenario text"),
+    "C04": dict(thms=["C04_leaves_get_ptrs", "C04_lock_all_or_wait", "C04_try_all_or_nothing", "C04_scoped_call"],
+                rule=COMMON_RULE + "vocabulary: lock/try/scoped/scoped-try in both modes against pre-held members; observation = hold table, "
+                     "raw operations and closure markers per call; non-trivial = a refusal, a closure run or a blocked call; distinct = scenario text"),
+    "C05": dict(thms=["C05_guard_drop_exact", "C05_collection_unlock_exact"],
+                rule=COMMON_RULE + "observation = release operations with audit verdicts + hold table; non-trivial = at least one release; "
+                     "distinct = scenario text"),
+    "C10": dict(thms=["C10_no_panic_no_poison", "C10_guard_panic_poisons", "C10_own_scoped_panic_poisons",
+                      "C10_poisoned_still_acquires", "C10_refuted_scoped_collection"],
+                rule=COMMON_RULE + "vocabulary adds panics with a live guard, panicking closures, is_poisoned, clear_poison; observation = "
+                     "is_poisoned of every wrapper after every call + Ok/Err seen at every wrapper position; non-trivial = history "
+                     "contains a panic and a Poisonable; distinct = scenario text"),
+    "C11": dict(thms=["C11_closure_panic", "C11_guard_panic", "C11_catch_reraises"],
+                rule=COMMON_RULE + "panic injected with a live guard and inside closures (lent and moved key); observation = result, releases, "
+                     "hold table and key probe after the catch; non-trivial = a panic that propagated; distinct = scenario text"),
+    "C17": dict(thms=["C17_fmt_never_waits", "C17_fmt_no_disturbance", "C17_accessors_no_raw_ops"],
+                rule=COMMON_RULE + "vocabulary adds Debug formatting of every lock / collection, is_poisoned, clear_poison, while locks are held "
+                     "by other threads and by the caller itself; observation = raw operations + hold table; non-trivial = a non-acquiring "
+                     "call while something is held; distinct = scenario text"),
+})
 TEMPLATE = '''"""{pid} — history-based check (see tools/histprop.py, coq/Monitors.v mon_{pid})."""
 import common
 import histprop
